@@ -84,11 +84,11 @@ type inst struct {
 }
 
 var shapes = []string{"file", "file", "dir", "dir-nonexec", "dir-extra-before", "dir-extra-after", "dir-nonexec-extra-after", "dir-nonexec-extra-before", "dir-subdir", "dir-subdir-before",
-	"dir-subdir-samename", "dir-symlink-extra", "dir-two", "dir-two-nonexec", "dir-no-candidate", "badmeta", "misnamed", "file-nonexec", "dir-badmeta"}
+	"dir-subdir-samename", "dir-symlink-extra", "dir-two", "dir-two-nonexec", "dir-no-candidate", "badmeta", "misnamed", "file-nonexec", "dir-badmeta", "file-via-symlink", "file-via-symlink"}
 
 func main() {
 	r := lib.Start("C20", "exploration")
-	r.Rule = "PRNG sequences of up to 6 install/uninstall operations over 2 plugin names x 23 versions (17 in precedence order incl. pre-release/build metadata/numeric-vs-lexical traps, 6 invalid) x overwrite x 19 source shapes (file; directory with executable / single non-executable candidate, extra files sorting before and after, sub-directories incl. one holding a same-named executable, symlink, two candidates, none; invalid / misnamed metadata; non-executable file); distinct by (sequence, step); non-trivial = install onto an existing plugin, or from a directory source"
+	r.Rule = "PRNG sequences of up to 6 install/uninstall operations over 2 plugin names x 23 versions (17 in precedence order incl. pre-release/build metadata/numeric-vs-lexical traps, 6 invalid) x overwrite x 20 source shapes (file; symbolic link to the file; directory with executable / single non-executable candidate, extra files sorting before and after, sub-directories incl. one holding a same-named executable, symlink, two candidates, none; invalid / misnamed metadata; non-executable file); distinct by (sequence, step); non-trivial = install onto an existing plugin, or from a directory source"
 	r.Assumptions = []string{"plugins are /bin/sh scripts printing embedded metadata (benign names only)",
 		"first-time installation of a plugin whose version is not a semantic version is not judged (nothing is replaced)",
 		"expected mode of an installed file = source mode & 0755; a single non-executable candidate gets its user-execute bit set first (documented behaviour)"}
@@ -215,6 +215,12 @@ func runSequence(ctx context.Context, r *lib.Run, seq int, pending *[]func()) (b
 					path = exe
 				case "file-nonexec":
 					path, usable = exe, false
+				case "file-via-symlink":
+					// the path handed to Install is a symbolic link to the executable (a package manager's bin/ layout)
+					ld := filepath.Join(base, fmt.Sprintf("links%d", op))
+					os.MkdirAll(ld, 0o755)
+					path = filepath.Join(ld, "notation-"+name)
+					os.Symlink(exe, path)
 				case "dir-extra-before", "dir-nonexec-extra-before":
 					addExtra("LICENSE", "lic", 0o644)
 					addExtra("A-lib.so", "lib-a", 0o666)
